@@ -969,3 +969,43 @@ package sse
 //@   step 0 unsubscription_removes_without_calls: incase(2) ==> ncalls() == prev(ncalls()) && !has(j.subscribers, sub) && othersubs(j, sub)
 
 //@ pure othersubs(j, x) = all(d, "ref", d != x ==> has(j.subscribers, d) == prev(has(j.subscribers, d)) && j.subscribers[d] == prev(j.subscribers[d]))
+
+//@ func Joe.init
+//@   trusted
+//@   requires j != nil
+//@   modifies j.message, j.subscription, j.unsubscription, j.done, j.closed, j.subscribers
+//@   ensures channels_exist: j.message != nil && j.subscription != nil && j.unsubscription != nil && j.done != nil && j.closed != nil
+//@   ensures no_calls: ncalls() == old(ncalls())
+//@   ensures channels_are_distinct: allocated(j.done) && allocated(j.closed) && allocated(j.message) && allocated(j.subscription) && allocated(j.unsubscription) && j.subscription != j.unsubscription && j.done != j.closed
+
+//@ func Joe.init$1
+//@   requires j != nil
+//@   modifies j.message, j.subscription, j.unsubscription, j.done, j.closed, j.subscribers
+//@   ensures channels_exist: j.message != nil && j.subscription != nil && j.unsubscription != nil && j.done != nil && j.closed != nil && j.subscribers != nil
+
+//@ pure lastop() = ncalls() - 1
+
+//@ func Joe.Subscribe
+//@   tracechans
+//@   requires j != nil
+//@   modifies j.message, j.subscription, j.unsubscription, j.done, j.closed, j.subscribers
+//@   ensures closed_provider_hands_nothing_over: (forall(x, old(ncalls()), ncalls(), !(iscall(x, "chansend") && crecv(x) == j.subscription))) ==> result == ErrProviderClosed
+//@   ensures subscribes_at_most_once: forall(x, old(ncalls()), ncalls(), forall(y, old(ncalls()), ncalls(), iscall(x, "chansend") && crecv(x) == j.subscription && iscall(y, "chansend") && crecv(y) == j.subscription ==> x == y))
+//@   ensures returns_only_after_release: (exists(x, old(ncalls()), ncalls(), iscall(x, "chansend") && crecv(x) == j.subscription)) ==>
+//@       (iscall(lastop(), "chanrecv") && crecv(lastop()) != j.done && result == chanval(lastop())) || (iscall(lastop(), "chansend") && crecv(lastop()) == j.unsubscription && result == nil)
+
+//@ func Joe.Publish
+//@   tracechans
+//@   requires j != nil
+//@   modifies j.message, j.subscription, j.unsubscription, j.done, j.closed, j.subscribers
+//@   ensures no_topics_rejected: len(topics) == 0 ==> result == ErrNoTopic && ncalls() == old(ncalls())
+//@   ensures hands_over_at_most_once: forall(x, old(ncalls()), ncalls(), forall(y, old(ncalls()), ncalls(), iscall(x, "chansend") && iscall(y, "chansend") ==> x == y))
+//@   ensures returns_the_loops_answer: forall(x, old(ncalls()), ncalls(), iscall(x, "chansend") ==> crecv(x) == j.message && x == ncalls() - 2 && iscall(lastop(), "chanrecv") && result == chanval(lastop()))
+//@   ensures closed_provider_reported: len(topics) > 0 && (forall(x, old(ncalls()), ncalls(), !iscall(x, "chansend"))) ==> result == ErrProviderClosed
+
+//@ func Joe.Shutdown
+//@   maypanic
+//@   tracechans
+//@   requires j != nil
+//@   modifies j.message, j.subscription, j.unsubscription, j.done, j.closed, j.subscribers, chancell(j.done)
+//@   ensures second_shutdown_is_reported_not_fatal: old(chclosed(j.done)) && j.done == old(j.done) ==> err == ErrProviderClosed
